@@ -152,6 +152,8 @@ class World:
             out = ["error", e.error]
         finally:
             st.fault_at = None
+        # the callback at which the injected failure was raised, whether or not it reached the caller
+        self.fired = next((n for n, d in st.trace if d == "FAULT"), None)
         return out, [n for n, _ in st.trace]
 
     def request(self, req, fault_at=None):
